@@ -129,8 +129,10 @@ package interp
 //@   opt opaque-calls = *
 //@   opt opaque-havoc = none
 //@   opt fn-values = pure
+//@   opt record-calls = genFunctionWrapper
 //@   requires [assume] f != nil
 //@   loop 6
+//@   step argument-is-copied-into-the-parameter-slot-not-aliased: !(variadic >= 0 && i >= variadic) ==> dest[i] == old(dest[i]) || called(genFunctionWrapper)
 //@   step spread-argument-shares-the-callers-slice: variadic >= 0 && i >= variadic && rvType(v(f)) == rvType(vararg) ==> rvIface(vararg) == rvIface(v(f)) && rvInt(vararg) == rvInt(v(f))
 
 // callBin, plain call of a host function whose results stay in the frame (default form): result i is
